@@ -556,6 +556,12 @@ def _annotation_roots(pb, rng, size):
         if roots and rng.random() < 0.7:
             kind, spec = rng.choice(roots)
             names.append(pb.add_root(kind, specs.with_parent(spec, p2)))
+    # near-twin: same collection, same sequence name and length, other bases
+    if rng.random() < 0.25 and parent["mode"] in ("chrom", "chunk"):
+        twin = copy.deepcopy(coll)
+        tg = twin["parent"]["genome"]
+        tg["seq"] = tg["seq"].translate(str.maketrans("ACGT", "CATG"))
+        names.append(pb.add_root("collection", twin))
     # variants on the same genome
     if rng.random() < 0.5 and parent["mode"] != "none":
         lo, hi = (parent["chunk"] if parent["mode"] == "chunk" else (0, L))
